@@ -100,12 +100,14 @@ package goja
 //@   props C17
 //@   trusted
 //@   assigns nothing if specPrimitiveNumeric(p0)
+//@   assigns script
 
 //@ func toBigInt
 //@   props C17
 //@   trusted
 //@   ensures result != nil [non-nil]
 //@   assigns nothing if specPrimitiveNumeric(value)
+//@   assigns script
 
 // sort.Stable calls Less/Swap only with 0 <= i, j < Len() (assumed contract of the standard library).
 //@ func (*typedArraySortCtx).Less
@@ -156,6 +158,7 @@ package goja
 //@ iface Value.ToInteger
 //@   props C17
 //@   assigns nothing if specPrimitiveNumeric(self)
+//@   assigns script
 
 //@ iface Value.ToBoolean
 //@   props C17
